@@ -313,6 +313,21 @@ fn public_case<B: Backend>(cx: &mut Ctx, rng: &mut Prng, pairs: &[keys::Pair]) {
         }
         Err(e) => cx.emit("verify", "valid", false, json!({"real_error": errname(&e)})),
     }
+    // a clone of the signing key signs like the original: valid, and for deterministic schemes byte-identical
+    if let Ok(b) = &tbs {
+        let skc = sk.clone();
+        match UnsealedToken::<B::V, Public, Raw>::new(Raw(m.clone())).with_footer(f.clone()).seal(&skc, &i) {
+            Ok(t) => {
+                let (p, _) = dt::split_token(&t.to_string(), hdr.len()).unwrap_or_default();
+                let good = p.len() == ml + sl && p[..ml] == m[..] && sig_verify(fam, B::VER, &kp.public, b, &p[ml..]);
+                cx.emit("verify", "valid", good, json!({"signer": "clone"}));
+                if (B::VER == 2 || B::VER == 4) && p.len() == ml + sl {
+                    cx.equal("forward", &p[ml..], &Ok(sig_sign(fam, B::VER, &kp.secret, b)), json!({"what": "deterministic signature", "signer": "clone"}));
+                }
+            }
+            Err(e) => cx.emit("verify", "valid", false, json!({"signer": "clone", "real_error": errname(&e)})),
+        }
+    }
     // the encoding suffix is part of the signed header
     {
         let tbs_c = ev(fam, &c["tbs_sfx"], &inp);
@@ -590,6 +605,20 @@ fn wrap_case<B: Backend>(cx: &mut Ctx, rng: &mut Prng, pairs: &[keys::Pair]) {
         match ev(fam, &c["data"], &inp) {
             Ok(blob) => {
                 let text = format!("{hdr}{}", crate::b64::enc(&blob));
+                // the previous case's blob (same password, same salt, other cost) is opened immediately before this one
+                {
+                    use std::sync::Mutex;
+                    static PREV: Mutex<Vec<(String, String, String, Vec<u8>)>> = Mutex::new(Vec::new());
+                    let mut prev = PREV.lock().unwrap_or_else(|e| e.into_inner());
+                    if let Some(pos) = prev.iter().position(|p| p.0 == B::NAME) {
+                        let (_, pkt, ptext, pptk) = prev.remove(pos);
+                        match unwrap_generic::<B>(kind, &pkt, &ptext, &pw) {
+                            Ok(k) => cx.emit("reference", "accepted-same", k == pptk, json!({"same_password_and_salt": true, "accepted": true, "order": "previous cost first"})),
+                            Err(e) => cx.emit("reference", "accepted-same", false, json!({"same_password_and_salt": true, "accepted": false, "order": "previous cost first", "real_error": e})),
+                        }
+                    }
+                    prev.push((B::NAME.to_string(), ktype.to_string(), text.clone(), ptk.clone()));
+                }
                 match unwrap_generic::<B>(kind, ktype, &text, &pw) {
                     Ok(k) => cx.emit("reference", "accepted-same", k == ptk, json!({"same_password_and_salt": true, "accepted": true})),
                     Err(e) => cx.emit("reference", "accepted-same", false, json!({"same_password_and_salt": true, "accepted": false, "real_error": e})),
